@@ -7,7 +7,8 @@ fields, ``PointwiseNorm/Inner/Sum``, ``ComplexModulus(Squared)``,
 ``RealPart/ImagPart/ComplexEmbedding``, ``Norm/Dist/InnerProductOperator``,
 ``ConstantOperator``, finite-difference operators and ``ResizingOperator``
 with non-zero constant padding (affine), gradient operators that offer a
-Hessian, ...) with base points kept at a generated margin from the documented
+Hessian, the ten ufunc *functionals* with a gradient on the real / complex
+field, ``LinDeformFixedDisp`` (linear), ...) with base points kept at a generated margin from the documented
 non-differentiable set; (b) nonlinear expression trees from the typed grammar
 of ``vlib.exprs`` (sum / chain / product rules, left and right scalar and
 vector multiples, affine shifts, powers, explicit ``tmp`` arguments) including
@@ -21,7 +22,8 @@ linearised at its own component of the base point); (d) stratum *func*: true
 ``Functional`` expressions (functional arithmetic ``a*f, f*a, f+g, f+c, f*g,
 f/g, f*A, f*v, f.translated(v)``, ``FunctionalQuadraticPerturb`` over its
 option grid, ``BregmanDistance``; linear, affine = linear + constant through
-every syntax, and nonlinear) differentiated themselves
+every syntax, scalings / translations applied twice in a row (merged by the
+constructors), and nonlinear) differentiated themselves
 (``Functional.derivative``) and as operands of the generic operator classes
 whose derivative rules consult the operand's ``is_linear`` (``y * F``,
 ``MultiplyOperator o F``, ``OperatorSum / LeftScalarMult / RightVectorMult /
@@ -143,8 +145,9 @@ RULE = ('Hypothesis draws (type table, zoo entry with options [15%] | '
         'expression tree of depth <= 3 [55%] | shared-operator block '
         'operator around a nonlinear block, optionally composed / summed '
         'with a tree [10%] | Functional expression of depth <= 2 (linear / '
-        'linear + constant / any) used itself or inside one of 9 operator '
-        'wrappers [20%]; base point, 2-3 directions). Non-trivial = the '
+        'linear + constant / scaled or translated twice in a row / any) '
+        'used itself or inside one of 9 operator wrappers [20%]; base '
+        'point, 2-3 directions). Non-trivial = the '
         'operator is not linear by construction (nonlinear leaf or affine '
         'shift) and the difference ladder was evaluated; distinct by sha1 of '
         'the descriptor')
@@ -868,7 +871,8 @@ def _fexpr(draw, types, D, depth, linear=False, quot=True):
                                      'neg', 'quadperturb0']))
     else:
         rule = draw(st.sampled_from(
-            ['leaf', 'lscal', 'rscal', 'div', 'sum', 'sum', 'diff', 'neg',
+            ['leaf', 'lscal', 'rscal', 'rscal', 'div', 'sum', 'sum', 'diff',
+             'neg',
              'addscal', 'addscal', 'fprod', 'fcomp', 'fcomp', 'rvec',
              'translated', 'translated', 'quadperturb', 'quadperturb',
              'quadperturb', 'quadperturb-lin', 'quadperturb-lin', 'bregman',
@@ -876,15 +880,26 @@ def _fexpr(draw, types, D, depth, linear=False, quot=True):
     fn = dict(dom=D, ran=Fk, fk='func')
     if rule == 'leaf':
         return draw(_func_leaf(types, D, linear))
+    # (scalings and translations applied twice in a row are merged into one
+    # node by the constructors: drawn on purpose for a third of these rules)
+    twice = draw(st.integers(0, 2)) == 0
     if rule == 'lscal':
-        return _node('lscal', a=sub(), s=draw(ex.scalars(False)),
+        inner = sub()
+        if twice:
+            inner = _node('lscal', a=inner, how='op',
+                          s=draw(ex.scalars(False, nonzero=True)), **fn)
+        return _node('lscal', a=inner, s=draw(ex.scalars(False)),
                      how=draw(st.sampled_from(['op', 'op', 'rmatmul'])),
                      **fn)
     if rule in ('rscal', 'div'):
         # (f * 0 is built as the constant f(0): only over quotient-free f,
         # a quotient need not be defined at the origin)
         sc = draw(ex.scalars(False, nonzero=(rule == 'div')))
-        return _node(rule, a=sub(q=quot and sc['v'] != 0), s=sc,
+        inner = sub(q=quot and sc['v'] != 0)
+        if twice:
+            inner = _node('rscal', a=inner, how='op',
+                          s=draw(ex.scalars(False, nonzero=True)), **fn)
+        return _node(rule, a=inner, s=sc,
                      how='op' if rule == 'div' else
                      draw(st.sampled_from(['op', 'op', 'matmul'])), **fn)
     if rule in ('sum', 'diff'):
@@ -911,7 +926,11 @@ def _fexpr(draw, types, D, depth, linear=False, quot=True):
         return _node('rvec', a=sub(), v=draw(ex.values(types, D)),
                      how=draw(st.sampled_from(['op', 'op', 'matmul'])), **fn)
     if rule == 'translated':
-        return _node('translated', a=sub(draw(st.booleans())),
+        inner = sub(draw(st.booleans()))
+        if twice:
+            inner = _node('translated', a=inner, how='op',
+                          v=draw(ex.values(types, D)), **fn)
+        return _node('translated', a=inner,
                      v=draw(ex.values(types, D)), how='op', **fn)
     if rule.startswith('quadperturb'):
         # F + a <.,.> + <., u> + c over the full option grid (each of a, u,
@@ -950,9 +969,26 @@ def _func_tree(draw, types, pairs):
     operand (``y * F``, ``M o F``, ``OperatorSum(F, G)`` ...)."""
     D = 'Xr' if 'Xr' in types else 'X'
     Fk = types[D]['fkey']
-    shape = draw(st.sampled_from(['affine', 'linear', 'any', 'any', 'any']))
+    shape = draw(st.sampled_from(['affine', 'linear', 'twice', 'any', 'any',
+                                  'any']))
     depth = draw(st.sampled_from([0, 1, 1, 2, 2]))
-    if shape == 'affine':
+    if shape == 'twice':
+        # the same argument / value transformation applied twice in a row
+        # to a nonlinear functional (the constructors merge the two)
+        fn = dict(dom=D, ran=Fk, fk='func')
+        F = draw(_fexpr(types, D, min(depth, 1), False, False))
+        rule = draw(st.sampled_from(['rscal', 'rscal', 'lscal',
+                                     'translated']))
+        for _ in range(2):
+            if rule == 'translated':
+                F = _node(rule, a=F, v=draw(ex.values(types, D)), how='op',
+                          **fn)
+            else:
+                F = _node(rule, a=F, how=draw(st.sampled_from(
+                    ['op', 'op', 'matmul' if rule == 'rscal' else 'rmatmul'])),
+                    s=draw(ex.scalars(False, classes=['generic', 'generic',
+                                                      'mone'])), **fn)
+    elif shape == 'affine':
         # linear functional + constant, through every syntax that adds one
         lin = draw(_fexpr(types, D, min(depth, 1), True))
         fn = dict(dom=D, ran=Fk, fk='func')
